@@ -4,7 +4,7 @@ from .. import gen, hist
 
 class Runner(hist.HistoryRunner):
     own_prop = "C11"
-    claims = ('mwrite-gen', 'mwrite-user', 'mwrite-new', 'mreplace-gen', 'mreplace-user', 'mreplace-new', 'mremove')
+    claims = ('mwrite-gen', 'mwrite-user', 'mwrite-new', 'mreplace-gen', 'mreplace-user', 'mreplace-new', 'mremove', 'usermod')
     pass
 
 
@@ -28,8 +28,8 @@ class Spec:
         return 1600 if tier == "quick" else 16000
 
     def strategy(self, tier):
-        o = {"p_failflag": 10, "p_csum": 20, "p_default": 50, "max_cmd_targets": 2, "p_focus": 60,
-             "weights": {"cmd": 40, "redo": 15, "mwrite": 14, "mreplace": 8, "mremove": 12, "edit": 8, "query": 8,
+        o = {"p_failflag": 10, "p_csum": 20, "p_default": 50, "max_cmd_targets": 2, "p_focus": 60, "p_usermod": 35,
+             "weights": {"cmd": 40, "redo": 15, "usermodflag": 7, "mwrite": 14, "mreplace": 8, "mremove": 12, "edit": 8, "query": 8,
                          "failflag": 3, "setdo": 3, "adddo": 2, "rmdo": 1, "rmtarget": 4, "mkpath": 1, "rmpath": 1,
                          "ext": 1, "touch": 2}}
         if tier == "thorough":
